@@ -90,27 +90,19 @@ Definition redir_op (s : str) : option (rop * str) :=
   | _ => None
   end.
 
+(* a word / operator token of the statement level if there is one; otherwise (next_token refuses
+   a leading < or > and a literal directly followed by < or >) a redirection operator with its
+   optional fd literal (the lexer's _LitRedir: digits directly followed by < or >) *)
 Definition next_xtoken (s : str) : option (xtok * str) :=
-  let s' := skip_blanks s in
-  match s' with
-  | c :: _ =>
-      if (c =? 62) || (c =? 60) then
-        match redir_op s' with Some (op, r) => Some (XRedir [] op, r) | None => None end
-      else if is_digit c then
-        let '(ds, r) := span_digits s' [] in
-        match r with
-        | d :: _ =>
-            if (d =? 62) || (d =? 60) then
-              match redir_op r with Some (op, r') => Some (XRedir ds op, r') | None => None end
-            else match next_token s with Some (t, r') => Some (XTok t, r') | None => None end
-        | [] => match next_token s with Some (t, r') => Some (XTok t, r') | None => None end
-        end
-      else match next_token s with Some (t, r') => Some (XTok t, r') | None => None end
-  | [] => match next_token s with Some (t, r') => Some (XTok t, r') | None => None end
+  match next_token s with
+  | Some (t, r) => Some (XTok t, r)
+  | None =>
+      let '(ds, r) := span_digits (skip_blanks s) [] in
+      match redir_op r with
+      | Some (op, r') => Some (XRedir ds op, r')
+      | None => None
+      end
   end.
-
-(* next_token refuses a word directly followed by < or > (it may be a fd); after blanks the
-   redirection is a token of its own, so a word here is followed by a delimiter *)
 
 (* getAssign on a word whose first literal is name=... *)
 Definition split_assign (w : word) : option assign :=
